@@ -156,7 +156,18 @@ def run(idx, rep, tier):
                 eye, side = (l, "left") if isinstance(l, ast.Call) and df.is_xnp_call(l) == "eye" else ((r, "right") if isinstance(r, ast.Call) and df.is_xnp_call(r) == "eye" else (None, None))
                 if eye is None:
                     continue
-                dims = [norm_idx(nospace(a)) for a in eye.args[:2]]
+                def dim_text(a_, depth=0):
+                    """`self.shape[i]`, also behind a local (`rows, cols = self.shape`, `n = self.shape[-1]`)"""
+                    if isinstance(a_, ast.Name) and depth < 3:
+                        vals = [(v_, p_) for v_, p_, st_ in df.assignments(td.node).get(a_.id, []) if not isinstance(v_, ast.AugAssign)]
+                        if len(vals) == 1:
+                            v_, p_ = vals[0]
+                            if p_ is None:
+                                return dim_text(v_, depth + 1)
+                            if len(p_) == 1 and isinstance(p_[0], int) and nospace(v_) == "self.shape":
+                                return norm_idx(f"self.shape[{p_[0]}]")
+                    return norm_idx(nospace(a_))
+                dims = [dim_text(a) for a in eye.args[:2]]
                 want = "self.shape[0]" if side == "left" else "self.shape[1]"
                 if dims == [want, want]:
                     n_ok += 1
